@@ -73,10 +73,27 @@ impl<R: BufRead> PacketParser<R> {
             return None;
         }
 
+        // The packets end where the reader has no more data. An error of the reader is not the
+        // end of the packets, whatever its kind (a reader stacked on a truncated source fails
+        // with `UnexpectedEof`, and is not usable afterwards).
+        match self.reader.fill_buf() {
+            Ok(buf) if buf.is_empty() => return None,
+            Ok(_) => {}
+            Err(err) => {
+                self.is_done = true;
+                return Some(Err(err.into()));
+            }
+        }
+
         let header = match PacketHeader::try_from_reader(&mut self.reader) {
             Ok(header) => header,
             Err(err) => {
                 if err.kind() == std::io::ErrorKind::UnexpectedEof {
+                    // out of data inside the header: the end, unless it is the reader that failed
+                    if let Err(err) = self.reader.fill_buf() {
+                        self.is_done = true;
+                        return Some(Err(err.into()));
+                    }
                     return None;
                 }
 
